@@ -9,7 +9,7 @@ KEY_POOL = ["a", "b", "c", "x", "p_1", "class", "a b", "a-b", "a_b", "foo", "$id
             "é", "0", "self_", "name", "type", "__dict__", "__weakref__", "__class__", "__module__", "__slots__"]
 SAFE_KEY_POOL = ["a", "b", "c", "x", "p_1", "class", "foo", "$id", "b1", "name", "type", "é", "0", "my key"]
 PATTERNS = ["^a", "b$", "^[a-c]+$", "x", "^p_", "^.$", "1", "^(foo|b1)$", "^$", "[0-9]"]
-FORMATS = ["uuid", "date-time", "my-format", "email"]
+FORMATS = ["uuid", "date-time", "my-format", "email", "UUID", "Date-Time", "uuid "]   # case / spacing variants are OTHER (unregistered) names
 TITLES = ["Foo", "Bar", "foo bar", "Baz", "Item", "Thing", "A", "nested thing"]
 NUMS = [0, 1, 2, 3, 5, 10, -1, -3, 0.5, 1.5, 2.0, 3.0, 2.5, 0.1, 100, 7, 4, 6]
 TYPES = ["string", "integer", "number", "boolean", "null", "array", "object"]
